@@ -336,3 +336,31 @@ def c07_7(ctx):
             axioms=('A1', 'A5'))
 def c07_8(ctx):
     _c02.cmparr_lexicographic(ctx)
+
+
+@obligation('C07.9', 'MATCH + call graph', 'length rank in the comparison core of cmp; _loop:len0',
+            'sort uses native order when it can, so cmp must agree with native order on strings: the length rank of cmp has to treat a string as a scalar (length 0); ranking strings by len() makes sort(["b", "aa"]) decreasing under cmp',
+            axioms=('A1',))
+def c07_9(ctx):
+    prefix, fn = cmp_core(ctx.repo)
+    body = prefix + fn.body
+    for v, lv in (('x', 'lx'), ('y', 'ly')):
+        a = [s for s in body if isinstance(s, ast.Assign) and U(s.targets[0]) == lv]
+        ctx.count(1, fn.where())
+        if not a or not isinstance(a[0].value, ast.Call) or len(a[0].value.args) != 1 or U(a[0].value.args[0]) != v:
+            ctx.fail(fn, a[0] if a else fn.node, 'the length rank %s is not a length function of %s' % (lv, v))
+            continue
+        g = ctx.repo.resolve_name(fn.mod, call_name(a[0].value))
+        if not isinstance(g, Fn):
+            ctx.fail(fn, a[0], 'length rank uses `%s`, which is not the string-aware length of the package (len() of a string is its number of characters)' % U(a[0].value.func),
+                     witness="cmp('aa', 'b') == 1 but sorted(['b', 'aa']) == ['aa', 'b']")
+            continue
+        src = U(g.node)
+        if 'is_str(' not in src and 'isinstance(%s, str)' % g.params[0] not in src:
+            ctx.fail(fn, a[0], 'length rank uses %s, which does not exempt strings: strings are ranked by their number of characters before their content' % g.name,
+                     witness="cmp('aa', 'b') == 1 but sorted(['b', 'aa']) == ['aa', 'b']")
+    g = ctx.repo.fn('_loop:len0')
+    ctx.count(1, g.where())
+    rr = [r for r in ast.walk(g.node) if isinstance(r, ast.Return) and isinstance(r.value, ast.IfExp)]
+    if not rr or N(rr[0].value.test) != 'is_str(%s)' % g.params[0] or const(rr[0].value.body) != 0:
+        ctx.fail(g, g.node, 'len0 of a string is no longer 0')
